@@ -69,7 +69,15 @@ func genC18(r *sim.Rng, rx map[string]string) *c18Case {
 		cb.Once = r.Chance(1, 4)
 		cb.Complete = r.Chance(1, 4)
 		cb.NextTimeout = r.Chance(1, 5)
-		if r.Chance(2, 3) {
+		if cb.Once && !cb.Complete && r.Chance(1, 2) {
+			// ResetOutput false (only reachable by setting the exported field): the accumulated output is
+			// kept, the trigger keeps holding, the once-callback is due again at the next evaluation --
+			// with or without new bytes from the device
+			cb.NoReset = true
+		}
+		if r.Chance(2, 3) && !cb.NoReset {
+			// (a no-reset callback that also answers would race the device's reaction against the
+			// re-evaluation of its own trigger: both orders are legal, so it is not generated)
 			a := r.Pick([]string{"y", "", "secret", "n"})
 			cb.Answer = &a
 		}
@@ -213,8 +221,14 @@ func runC18Case(id string, c *c18Case) {
 			emit(cs)
 			return
 		}
+		if cb.NoReset {
+			gcb.ResetOutput = false
+		}
 		cbs = append(cbs, gcb)
 		flags := "r" // ResetOutput defaults to true
+		if cb.NoReset {
+			flags = ""
+		}
 		if !cb.Sensitive {
 			flags += "i"
 		}
@@ -308,6 +322,16 @@ func runC18Case(id string, c *c18Case) {
 			if c.Cbs[t.i].Complete {
 				cs.Oracle = "a complete-callback ran but the operation timed out"
 				cs.Sig = "C18:complete"
+			}
+		}
+		// the last callback that ran kept the output (no reset) and does not answer: its trigger still
+		// holds on the same output, it is the first such callback, so it is due again at once -- it is
+		// marked once, so the operation must end with the once error, not with a timeout
+		if n := len(trace); n > 0 && cs.Oracle == "" {
+			last := c.Cbs[trace[n-1].i]
+			if last.NoReset && last.Once && !last.Complete && last.Answer == nil {
+				cs.Oracle = fmt.Sprintf("callback %d (once, output not reset) ran and its trigger still held on the unchanged output, yet the operation timed out instead of returning the once error", trace[n-1].i)
+				cs.Sig = "C18:trigger-not-reevaluated"
 			}
 		}
 	}
